@@ -1037,6 +1037,18 @@ def boundary_programs():
     fns = [dict(owner="A", body=[("call", 0, V(R_("B", 1)), [V(R_("A", 2))], [("nt", V(R_("A", 3)))]), ("raise", "ValueError", [("v", 0), V(R_("A", 4))])]),
            dict(owner="B", body=[("ret", ("t", [("k", "nt"), ("a", 0)]))])]
     out.append(dict(fns=fns, data=["A:tuple-subclass", "A:namedtuple", "A:str-subclass"], entry=dict(callee=R_("A", 0), args=[], kwargs=[])))
+    # a reference being received must not be overtaken by its own release notice: the reply carries an object of a class
+    # the requester has not seen (its proxy needs a HANDLE_INSPECT round trip) next to the requester's own object, whose
+    # only proxy at the callee dies when the request ends; the same shapes as request arguments and in nested tuples
+    fns = [dict(owner="B", body=[("ret", ("t", [V(R_("B", 1)), ("a", 0)]))])]
+    out.append(dict(fns=fns, data=["B:tuple-subclass", "A:str-subclass"], entry=dict(callee=R_("B", 0), args=[R_("A", 2)], kwargs=[])))
+    fns = [dict(owner="B", body=[("ret", ("t", [("t", [V(1), V(R_("B", 1))]), ("t", [("a", 0), ("t", [("k", "o"), V(R_("B", 2))])])]))])]
+    out.append(dict(fns=fns, data=["B:namedtuple", "B:frozenset-subclass", "A:int-subclass", "A:enum"],
+                    entry=dict(callee=R_("B", 0), args=[R_("A", 3)], kwargs=[("o", R_("A", 4))])))
+    fns = [dict(owner="B", body=[("call", 0, ("a", 0), [V(R_("B", 2)), ("a", 1), ("t", [V(R_("B", 3)), ("a", 1)])], [("kw", ("a", 1))]), ("ret", ("v", 0))]),
+           dict(owner="A", body=[("ret", ("t", [("a", 1), ("a", 0), ("a", 2), ("k", "kw")]))])]
+    out.append(dict(fns=fns, data=["B:tuple-subclass", "B:bytes-subclass", "A:float-subclass"],
+                    entry=dict(callee=R_("B", 0), args=[R_("A", 1), R_("A", 4)], kwargs=[])))
     # a function returned as a result and then called; a tuple of functions
     fns = [dict(owner="A", body=[("call", 0, V(R_("B", 1)), [], []), ("call", 1, ("v", 0), [V(1)], [("x", V(2))]), ("ret", ("t", [("v", 0), ("v", 1)]))]),
            dict(owner="B", body=[("ret", V(R_("B", 2)))]),
